@@ -321,7 +321,16 @@ func genRefillRecord(c *ctx, r *vh.Rng, s *spec) {
 	}
 	ops = append(ops, refillOp{Kind: "assign", Rec: replayRec(o2, s)})
 	if _, ok := o.(*service.TxRecord); ok && r.Bool() {
-		ops = append(ops, refillOp{Kind: "putfields", Rec: mapText(genAttr(r))})
+		// the union must fit the count byte: more than 255 custom fields is the known finding
+		// TxRecord.Fields:count-byte-wraps (replayed on its own every run), not a re-fill failure
+		m := genAttr(r)
+		have := 0
+		if f := o2.(*service.TxRecord).Fields; f != nil {
+			have = f.Size()
+		}
+		if m == nil || have+m.Size() <= 255 {
+			ops = append(ops, refillOp{Kind: "putfields", Rec: mapText(m)})
+		}
 	}
 	switch o.(type) {
 	case *step.MessageStepX:
